@@ -480,6 +480,39 @@ static uint32_t random_cp_by_length(vf_rng *r)
     return (uint32_t)vf_range(r, lo[L], hi[L]);
 }
 
+/* Longer, mostly-ASCII text starting at EVERY alignment of a machine word and ending exactly at the end of its heap block, or followed
+   inside the block by live ASCII that the stated length excludes: where a word-at-a-time fast path has its head, its body and its tail
+   (seeded change C18-M: the body loop bounds itself by a pointer computed from the start address before the head was aligned, and reads - and
+   counts - up to 7 bytes beyond the stated length when the start is not word aligned). Judged like every other string: the decode fold. */
+static void aligned_run(vf_rng *r)
+{
+    size_t const off = (size_t)vf_below(r, 16), len = (size_t)vf_below(r, 49), after = vf_chance(r, 1, 2) ? 0 : 1 + (size_t)vf_below(r, 16);
+    unsigned char *const b = (unsigned char *)malloc(off + len + after + !(off + len + after));
+    size_t i, lc, st;
+    for (i = 0; i < off + len + after; ++i) { b[i] = (unsigned char)(0x20 + vf_below(r, 0x5F)); }
+    /* none, one or a few non-ASCII / NUL bytes anywhere in the run */
+    for (i = vf_below(r, 4); i && len; --i)
+    {
+        size_t const at = off + (size_t)vf_below(r, len);
+        uint32_t const c = vf_chance(r, 1, 4) ? 0 : random_cp_by_length(r);
+        unsigned const L = c ? ref_len(c) : 1;
+        unsigned char e[8] = {0};
+        if (c) { ref_enc(c, L, e); }
+        for (unsigned k = 0; k < L && at + k < off + len; ++k) { b[at + k] = e[k]; } /* possibly cut by the end: an incomplete tail */
+    }
+    {
+        int const e = vf.explain;
+        vf.explain = 0;
+        vf_log("aligned run: offset %zu in its block, %zu bytes, %zu live bytes after the stated length: %s", off, len, after, hex(b + off, len));
+        vf.explain = e;
+    }
+    judge_string(b + off, len, &lc, &st);
+    if (off % sizeof(size_t)) { VF_COUNT("length-of-long-run-at-unaligned-start"); }
+    else { VF_COUNT("length-of-long-run-at-aligned-start"); }
+    if (after) { VF_COUNT("length-of-run-followed-by-live-ascii"); }
+    free(b);
+}
+
 static void wellformed(vf_rng *r, int want_sample, int quiet)
 {
     unsigned char s[NB];
@@ -835,6 +868,7 @@ static void vf_case(uint64_t cno, vf_rng *r)
             vf.jr->truncated = 0;
             wellformed(r, !(sampled & 1u << K_WELLFORMED), i >= 4);
             if (i % 8 == 0) { catc_append(r); }
+            if (i % 4 == 0) { aligned_run(r); }
             if (vf.nsamples && !(sampled & 1u << K_WELLFORMED) && strstr(vf.samples[vf.nsamples - 1], "well-formed")) { sampled |= 1u << K_WELLFORMED; }
         }
         break;
